@@ -117,7 +117,7 @@ def _unescape(s):
     return json.loads('"' + s + '"')
 
 
-def run_trace_tlc(work, spec, trace_file, kvcfg, tag, cfgname=None, timeout=1800, extra_env=None):
+def run_trace_tlc(work, spec, trace_file, kvcfg, tag, cfgname=None, timeout=3600, extra_env=None):
     """Validates one trace file with a trace specification.  Returns dict(verdicts, consumed, total, states)."""
     meta = work.path("meta-%s" % tag)
     kvf = work.path("kvcfg-%s.json" % tag)
